@@ -120,7 +120,7 @@ inline std::vector<SAtom> lin_mags(const Cfg& c, Level lv, bool with_1e9 = false
     if (c.thorough) { push_unique(o, c, 1e-8L, "1e-8"); push_unique(o, c, 1e6L, "1e6"); }
     return o;
   }
-  push_unique(o, c, 0, "0"); push_unique(o, c, 1e-8L, "1e-8"); push_unique(o, c, 1e-3L, "1e-3"); push_unique(o, c, 1, "1e0");
+  push_unique(o, c, 0, "0"); push_unique(o, c, 0.25L * c.eps, "eps/4"); push_unique(o, c, 1e-8L, "1e-8"); push_unique(o, c, 1e-3L, "1e-3"); push_unique(o, c, 1, "1e0");
   push_unique(o, c, 1e3L, "1e3"); push_unique(o, c, 1e6L, "1e6");
   if (with_1e9) push_unique(o, c, 1e9L, "1e9");
   return o;
@@ -219,7 +219,10 @@ inline std::vector<TAtom> block_tangents(const ref::Block& B, const Cfg& c, Leve
         if (lv == FULL) {
           const Real io[3] = {0, 0.1L, -10}; const char* ion[3] = {"0", "0.1", "-10"};
           for (int m = 0; m < 3; ++m) for (int q = 0; q < 3; ++q) ex.push_back(Extra{1, m, io[q], std::string(",nu=") + (m == 0 ? "0" : (m == 1 ? "1" : "L")) + ",iota=" + ion[q]});
+          ex.push_back(Extra{1, 1, 0.25L * c.eps, ",nu=1,iota=eps/4"}); ex.push_back(Extra{1, 2, -0.25L * c.eps, ",nu=L,iota=-eps/4"});
         } else {
+          // a time component that is non-zero but below the library's eps (a shortcut keyed on |t| <= eps instead of t == 0)
+          ex.push_back(Extra{1, 1, 0.25L * c.eps, ",nu=1,iota=eps/4"});
           ex.push_back(Extra{1, 0, 0, ",nu=0,iota=0"}); ex.push_back(Extra{1, 2, 0.1L, ",nu=L,iota=0.1"}); ex.push_back(Extra{1, 1, -10, ",nu=1,iota=-10"});
         }
       }
